@@ -9,7 +9,6 @@ VERIF = os.path.dirname(os.path.dirname(os.path.abspath(__file__)))
 sys.path.insert(0, VERIF)
 
 NA = {
-    "C18": "Table joins: one data-dependent routine computes row pairing, multiplicities and optional-kind promotion from runtime table contents (a relation between multisets); no structural clause that is a necessary condition without matching a source fragment. See DESIGN.md section 5.",
 }
 NOT_BUILT = "check not built yet (see DESIGN.md section 4 for the planned rules)"
 
